@@ -9,6 +9,7 @@ From ClapModel Require Import ParseProofs.Totality ParseProofs.Provenance ParseP
 From ClapModel Require Import ParseProofs.Actions ParseProofs.Relations ParseProofs.RelationsComplete ParseProofs.Unparse ParseProofs.UnparseTop ParseProofs.UnparseSub
                               ParseProofs.UnparseTree ParseProofs.UnparseX ParseProofs.UnparseXTree ParseProofs.UnparseLift
                               ParseProofs.NoSpurious ParseProofs.NoSpuriousTree ParseProofs.NoSpuriousCheck ParseProofs.NoSpuriousExamples.
+From ClapModel Require Gen.SettingsTables ParseProofs.TablesSettings ParseProofs.TablesSettingsTree.
 From Coq Require Import ZArith QArith String List.
 From RecordUpdate Require Import RecordSet.
 Import RecordSetNotations.
@@ -797,3 +798,92 @@ Theorem C10_necessity_vocabulary : forall k0 i k a,
   NsrEx.c = build_self (with_bin NsrEx.c0 NsrEx.bin) /\ NsrEx.ce = build_self (with_bin NsrEx.c0e NsrEx.bin).
 Proof. exact necessity_vocabulary. Qed.
 Print Assumptions C10_necessity_vocabulary.
+
+(** ** round 5: which settings are global, and how they travel -- tied to the source by translation
+    [Gen.SettingsTables] is regenerated on every run from clap_builder/src/builder/{app_settings,command}.rs (and, for the
+    two spec readers, from ocaml/common_parse/spec.ml and harness/src/modes/parse.rs).  Vocabulary
+    (ParseProofs/TablesSettings.v): [spec_apply n c] = what the model-side reader does to the model command for the
+    setter name [n]; [src_apply n c] = what the source's `Command::n(true)` does (variant and AppFlags fields read off
+    the setter body and off setting/global_setting); [find_setter n] = (variant, through global_setting?);
+    [propagate_chain p scs] = the leaf of a chain of subcommands below [p], each level propagated from the one above. *)
+Theorem C10_settings_reader_matches_source :
+  Forall (fun n => forall c, exists c', TablesSettings.spec_apply n c = Some c' /\ TablesSettings.src_apply n c = Some c')
+         TablesSettings.spec_names
+  /\ Forall (fun n => exists v g, TablesSettings.find_setter n = Some (v, g) /\ TablesSettings.spec_is_global n = Some g)
+            TablesSettings.spec_names
+  /\ Forall (fun p => fst p = snd p) SettingsTables.gen_harness_settings
+  /\ map fst SettingsTables.gen_harness_settings = TablesSettings.spec_names.
+Proof.
+  exact (conj TablesSettings.spec_reader_matches_source (conj TablesSettings.spec_reader_globals_match_source
+          TablesSettings.harness_calls_named_method)).
+Qed.
+Print Assumptions C10_settings_reader_matches_source.
+
+(** the setters of the source the parser model does not represent are exactly the listed ones *)
+Theorem C10_settings_unmodelled :
+  TablesSettings.unmodelled true = TablesSettings.known_unmodelled_global
+  /\ TablesSettings.unmodelled false = TablesSettings.known_unmodelled_local.
+Proof. exact TablesSettings.unmodelled_setters. Qed.
+Print Assumptions C10_settings_unmodelled.
+
+(** `_propagate_subcommand` of the model IS the function the source's table defines *)
+Theorem C10_settings_propagate_table : forall p sc,
+  TablesSettings.tbl_propagate p sc = Some (propagate_subcommand p sc).
+Proof. exact TablesSettings.propagate_table. Qed.
+Print Assumptions C10_settings_propagate_table.
+
+(** a setter the source routes through `global_setting` holds at EVERY level below the command it was called on *)
+Theorem C10_global_setter_reaches_every_level : forall n v f,
+  In n TablesSettings.spec_names -> TablesSettings.find_setter n = Some (v, true) -> TablesSettings.field_by_variant v = Some f ->
+  forall p p' scs, TablesSettings.spec_apply n p = Some p' -> scs <> [] ->
+  is_set (TablesSettings.sf_get f) p' = true /\ is_set (TablesSettings.sf_get f) (TablesSettings.propagate_chain p' scs) = true.
+Proof. exact TablesSettings.global_setter_reaches_every_level. Qed.
+Print Assumptions C10_global_setter_reaches_every_level.
+
+(** ... and one routed through `setting` changes nothing below *)
+Theorem C10_local_setter_stays : forall n v,
+  In n TablesSettings.spec_names -> TablesSettings.find_setter n = Some (v, false) ->
+  forall p p' sc, TablesSettings.spec_apply n p = Some p' ->
+  c_gset p' = c_gset p
+  /\ c_set (propagate_subcommand p' sc) = c_set (propagate_subcommand p sc)
+  /\ c_gset (propagate_subcommand p' sc) = c_gset (propagate_subcommand p sc).
+Proof. exact TablesSettings.local_setter_stays. Qed.
+Print Assumptions C10_local_setter_stays.
+
+(** per setting, one propagation step: what the subcommand sees and what it hands on *)
+Theorem C10_propagate_is_set : forall f, In f TablesSettings.all_sfields -> forall p sc,
+  is_set (TablesSettings.sf_get f) (propagate_subcommand p sc)
+    = is_set (TablesSettings.sf_get f) sc || TablesSettings.sf_get f (c_gset p)
+  /\ TablesSettings.sf_get f (c_gset (propagate_subcommand p sc))
+    = TablesSettings.sf_get f (c_gset sc) || TablesSettings.sf_get f (c_gset p).
+Proof. exact TablesSettings.propagate_is_set. Qed.
+Print Assumptions C10_propagate_is_set.
+
+(** the settings block of `_build_self` and the finishing of the generated `help` subcommand, from the table *)
+Theorem C10_build_self_settings_table : forall c, is_set s_multicall c = false ->
+  TablesSettings.tbl_bs_settings c = Some (bs_settings c).
+Proof. exact TablesSettings.bs_settings_table. Qed.
+Print Assumptions C10_build_self_settings_table.
+
+Theorem C10_help_subcommand_table : forall p,
+  TablesSettings.tbl_help_subcommand p = Some (fix_help_unset (help_subcommand p)).
+Proof. exact TablesSettings.help_subcommand_table. Qed.
+Print Assumptions C10_help_subcommand_table.
+
+(** ... and in the REAL build order: a setting in the global record of the root of an unbuilt tree (class [plain]: nothing
+    built yet, no short-flag subcommands -- C01's class) is set at every level the parser can descend into
+    ([build_self], then [build_subcommand] repeatedly), to any depth; PropagateVersion is excluded because the generated
+    `help` subcommand clears it in its own global record ([pv_free_fields] = the 23 other model fields) *)
+Theorem C10_global_setting_set_at_every_built_level : forall f, In f TablesSettingsTree.pv_free_fields ->
+  forall fuel x, plain x = true -> TablesSettings.sf_get f (c_gset x) = true ->
+  TablesSettingsTree.set_all (TablesSettings.sf_get f) fuel (build_self x).
+Proof. exact TablesSettingsTree.global_setting_set_at_every_built_level. Qed.
+Print Assumptions C10_global_setting_set_at_every_built_level.
+
+Theorem C10_global_setter_set_at_every_built_level : forall n v f,
+  In n TablesSettings.spec_names -> TablesSettings.find_setter n = Some (v, true) ->
+  TablesSettings.field_by_variant v = Some f -> In f TablesSettingsTree.pv_free_fields ->
+  forall fuel x x', TablesSettings.spec_apply n x = Some x' -> plain x' = true ->
+  TablesSettingsTree.set_all (TablesSettings.sf_get f) fuel (build_self x').
+Proof. exact TablesSettingsTree.global_setter_set_at_every_built_level. Qed.
+Print Assumptions C10_global_setter_set_at_every_built_level.
